@@ -1,7 +1,7 @@
 (* C22 — special-mode injections are never silently lost.  Statements only. *)
 From Coq Require Import List Arith NArith ZArith Bool.
 Import ListNotations.
-From Orca Require Import Util Flat Lowering CheckLow LowSpecial.
+From Orca Require Import Util Flat Lowering Tree TreeLower CheckLow CheckSem LowSpecial Flatten NoLoss.
 
 (* (iv) an injection that cannot be honoured is rejected at the call *)
 Theorem C22_rejected_at_the_call : forall op m x f, accepts op m = false -> add_instr op m x f = None.
@@ -15,9 +15,44 @@ Theorem C22_accepted_reports_special : forall op m x f f' s, add_instr op m x f 
 Proof. exact add_instr_special_flag. Qed.
 Print Assumptions C22_accepted_reports_special.
 
-(* PARTIAL: the full statement -- every accepted special injection outside a removed region occurs in the
-   emitted body -- is not proved for the resolution pass; it is false of the faithful model in the class
-   D16 below, and is decided per (body, plan) by CheckLow.verdict22 on the real output. *)
+(* (ii) nothing accepted is lost by the resolution pass and the emission (Proofs/NoLoss.v on top of
+   Proofs/Flatten.v): for every body that parses and every plan without replacements in the fragment of the
+   flattening theorem (no semantic-after on a branch instruction -- D16-D18 --, no block-exit on an `if` whose
+   then-arm contains a construct -- D15), the mirror emits a body in which the block-entry, block-exit and
+   semantic-after code of EVERY construct, the function-entry code and the function-exit code all occur as
+   contiguous pieces.  [sites t] = the positions of the block / loop / if openers and the elses of the parsed body. *)
+Theorem C22_no_special_probe_is_lost :
+  forall (c : lcase) t fe fb sp n n',
+  parse_body (c_body c) = Some (t, fe) ->
+  apply_plan false (c_plan c) (map (fun o => (o, no_flags)) (c_body c)) false = Some (fb, sp) ->
+  forallb (fun x => nonreplacing (snd x)) fb = true ->
+  let Fe := with0 (c_entry c) (flags_fn fb) in
+  forallb (instr_no_branch_sa Fe n) t = true -> forallb (instr_no_d15 Fe n') t = true -> t <> [] ->
+  exists body, model c = Some (body, c_groups c) /\
+    (forall i, In i (sites t) ->
+       infix (f_be (flags_fn fb i)) body /\ infix (f_bx (flags_fn fb i)) body /\ infix (f_sa (flags_fn fb i)) body) /\
+    infix (c_entry c) body /\ infix (c_exit c) body.
+Proof. exact special_probes_all_emitted. Qed.
+Print Assumptions C22_no_special_probe_is_lost.
+(* the premises hold of a concrete body with an if/else inside a block, probes of all three special modes on the
+   constructs, entry and exit code; the four construct positions are sites *)
+Example C22_no_loss_nonvacuous :
+  let body := [FBlock BtEmpty; FLocalGet 0; FIf BtEmpty; FConst 5; FDrop; FElse; FConst 6; FDrop; FEnd; FEnd; FEnd] in
+  let plan := [(0%nat, MBlockEntry, [FConst 1001; FDrop]); (0%nat, MBlockExit, [FConst 1002; FDrop]);
+               (2%nat, MBlockExit, [FConst 1003; FDrop]); (5%nat, MBlockEntry, [FConst 1004; FDrop]);
+               (2%nat, MSemanticAfter, [FConst 1005; FDrop]); (5%nat, MSemanticAfter, [FConst 1006; FDrop])] in
+  let c := mkCase 1 0 [] [FConst 1007; FDrop] [FConst 1008; FDrop] 2 body plan 0 false None true 0 in
+  match parse_body (c_body c), apply_plan false (c_plan c) (map (fun o => (o, no_flags)) (c_body c)) false with
+  | Some (t, fe), Some (fb, sp) =>
+      forallb (fun x => nonreplacing (snd x)) fb = true /\
+      forallb (instr_no_branch_sa (with0 (c_entry c) (flags_fn fb)) 10) t = true /\
+      forallb (instr_no_d15 (with0 (c_entry c) (flags_fn fb)) 10) t = true /\ t <> [] /\ sites t = [0; 2; 5]%nat
+  | _, _ => False
+  end.
+Proof. vm_compute. repeat split; try reflexivity. discriminate. Qed.
+
+(* Outside that fragment the statement is false of the faithful model in the class D16 below (and D15, D17, D18);
+   every sampled (body, plan) is decided by CheckLow.verdict22 on the real output. *)
 
 (* D19 and D20 were genuine defects of the pinned tree (FunctionModifier::inject_at did not record special modes;
    after an import deletion the resolution loop started one function too late).  Both are repaired ("fix:"
